@@ -170,6 +170,8 @@ using namespace opensmt::tokens;
   \\            { printf("Syntax error at line %d near %s, \\ not allowed inside | ... |\n", yyget_lineno(yyscanner), yyget_text(yyscanner)); exit(1); }
 }
 
+<STR,PSYM><<EOF>> { printf("Syntax error: unterminated string literal or quoted symbol at the end of input\n"); exit(1); }
+
 .               { printf( "Syntax error at line %d near %s\n", yyget_lineno(yyscanner), yyget_text(yyscanner) ); exit( 1 ); }
 
 %%
